@@ -179,7 +179,7 @@ def ta_state_findings(rec, cfg, machine, prev_grants=None):
             own = set().union(*[set(h['exclusive']) for h in gl if h['pool'] == g['pool']] or [set()])
             sig = 'descendant-of-slicing-grant' if sliced_above else ('no-sharable-cpus-in-pool' if not pool['shar'] else
                   ('all-shared-cpus-of-pool-reinstated-exclusive' if set(pool['shar']) <= own else 'empty-cpuset'))
-            out.append(F('C03', 'nonempty-cpuset', sig, 'container %s (pool %s) has an empty allowed cpuset' % (c['id'], g['pool']), seq))
+            out.append(dict(F('C03', 'nonempty-cpuset', sig, 'container %s (pool %s) has an empty allowed cpuset' % (c['id'], g['pool']), seq), ctr=c['id']))
         pr = c.get('prefs')
         # eligibility is decided when a grant is made: look at grants made by this request (a grant
         # reinstated verbatim by a reconfiguration/restart predates the configuration now in force)
